@@ -44,6 +44,42 @@ def rawval(v):
     return f"(.other {lstr(repr(v))})"
 
 
+def conversion_hooks(t):
+    """Names of the hooks through which an argparse `type=` callable could accept a text that is not
+    literally one of its values: for an Enum class a `_missing_` override (the documented idiom for
+    lenient lookup), a custom `__new__` on the class / `__call__` on its metaclass, or members whose
+    name differs from their value; for anything else: not being THE builtin `int` / `str` /
+    `pathlib.Path` it is named after.  `[]` = plain conversion (what `Cli.convert` models)."""
+    import enum
+    from pathlib import Path
+
+    if t is None:
+        return []
+    hooks = []
+    if isinstance(t, type) and issubclass(t, enum.Enum):
+        base = getattr(enum.Enum._missing_, "__func__", enum.Enum._missing_)
+        for klass in t.__mro__:
+            if klass in (enum.Enum, object) or klass.__module__ == "enum":
+                continue
+            m = vars(klass).get("_missing_")
+            if m is not None and getattr(m, "__func__", m) is not base:
+                hooks.append("_missing_")
+            n = vars(klass).get("__new__")
+            if n is not None and n is not enum.Enum.__new__:
+                hooks.append("__new__")
+        if "__call__" in vars(type(t)) and type(t) is not enum.EnumMeta:
+            hooks.append("metaclass.__call__")
+        if any(m.name != m.value for m in t.__members__.values() if isinstance(m.value, str)) or \
+                len(t.__members__) != len(list(t)):
+            hooks.append("name-differs-from-value-or-alias")
+        return sorted(set(hooks))
+    name = getattr(t, "__name__", repr(t))
+    builtin = {"int": int, "str": str, "Path": Path}.get(name)
+    if builtin is None or t is not builtin:
+        hooks.append("not-the-builtin:" + name)
+    return hooks
+
+
 def type_info(t):
     """(type name, enum domain) of an argparse `type=` callable."""
     import enum
@@ -56,6 +92,113 @@ def type_info(t):
             return "enum", dom
         return "unsupported:" + t.__name__, []
     return getattr(t, "__name__", repr(t)), []
+
+
+_CANON = re.compile(r"^-?(0|[1-9][0-9]*)$")
+
+
+def in_codec(text):
+    """The trusted codec between a token's text and an integer: a text is either the canonical
+    decimal of an integer or a word `int()` rejects (ASCII only: `int()` also reads other digits)."""
+    if not isinstance(text, str):
+        return False
+    if _INT_LIKE.match(text):
+        return bool(_CANON.match(text)) and text != "-0"
+    return not any(ch.isdigit() and not ch.isascii() for ch in text)
+
+
+def near_miss_texts(choices, typ, members=None, enum_name="Enum"):
+    """Texts that are NOT an allowed value of a choice-restricted option but nearly are:
+    [(class, text)], deterministic, every text inside the trusted codec.  `choices`: plain values
+    (str / int); `typ`: 'str' | 'enum' | 'int'; `members`: [(name, value)] of an enum type.
+    The property demands that each is rejected (never coerced to the choice it resembles)."""
+    out = []
+    allowed = set(str(c) for c in choices)
+
+    def add(cls, text):
+        if text not in allowed and in_codec(text) and text != "" and all(text != t for _, t in out):
+            out.append((cls, text))
+    if typ == "int":
+        ints = sorted(int(c) for c in choices)
+        add("just-above", str(ints[-1] + 1))
+        add("just-below", str(ints[0] - 1))
+        mid = ints[len(ints) // 2]
+        for cls, text in (("float-text", f"{mid}.0"), ("float-text", f"{mid}."), ("exponent-text", f"{mid}e0"),
+                          ("hex-text", f"0x{mid}"), ("bool-text", "True"), ("bool-text", "true"),
+                          ("trailing-letter", f"{mid}L"), ("fraction-text", f"{mid}/1"), ("far", str(ints[-1] * 10 + 10))):
+            add(cls, text)
+        return out
+    for i, c in enumerate(choices):
+        c = str(c)
+        add("upper", c.upper())
+        add("capitalised", c.capitalize())
+        add("mixed-case", c[:-1] + c[-1:].upper())
+        add("swapcase-first", c[:1].upper() + c[1:-1] + c[-1:].upper())
+        add("leading-space", " " + c)
+        add("trailing-space", c + " ")
+        add("leading-tab", "\t" + c)
+        add("both-spaces", " " + c + " ")
+        add("prefix", c[:-1])
+        if len(c) > 2:
+            add("prefix", c[:1])
+            add("prefix", c[:2])
+        add("suffix", c[1:])
+        add("extended", c + "s")
+        add("doubled", c + c)
+        add("quoted", "'" + c + "'")
+        add("index", str(i))
+        add("index", str(i + 1))
+        add("dashed", c + "-")
+        add("underscored", "_" + c)
+        if "s" in c:
+            add("casefold-lookalike", c.replace("s", "\u017f"))       # 'ſ'.upper() == 'S', 'ſ'.casefold() == 's'
+        add("fullwidth", "".join(chr(ord(ch) + 0xFEE0) if "!" <= ch <= "~" else ch for ch in c))   # NFKC-equal
+    for name, value in members or []:
+        add("enum-member-name", str(name))
+        add("enum-member-name", str(name).upper())
+    if typ == "enum" and members:
+        for name, value in members:
+            add("enum-qualified", f"{enum_name}.{name}")
+            add("enum-repr", f"<{enum_name}.{name}: {value!r}>")
+    return out
+
+
+def option_near_misses(row):
+    """near_miss_texts for one row of option_rows (None when the option has no choices)."""
+    if row["choices"] is None:
+        return None
+    import enum
+
+    plain = [c.value if isinstance(c, enum.Enum) else c for c in row["choices"]]
+    typ = "int" if row["typ"] == "int" else "enum" if row["typ"] == "enum" else "str"
+    return near_miss_texts(plain, typ, row.get("members"), row.get("enum_name") or "Enum")
+
+
+def value_probes(parser, pname):
+    """Live verdict of argparse's own value pipeline (`_get_values` = the `type=` callable, then the
+    `choices` membership test) for every choice-restricted option on every allowed value and every
+    near-miss text: (parser, dest, text, verdict, converted value)."""
+    import argparse
+    import enum
+
+    rows = []
+    acts = [a for a in parser._actions if type(a).__name__ != "_HelpAction"]
+    for a, r in zip(acts, option_rows(parser)):
+        if a.choices is None or a.nargs is not None:
+            continue
+        plain = [c.value if isinstance(c, enum.Enum) else c for c in a.choices]
+        texts = [str(c) for c in plain] + [t for _, t in option_near_misses(r)]
+        for text in texts:
+            try:
+                v = parser._get_values(a, [text])
+                verdict = "ok"
+            except argparse.ArgumentError as e:
+                msg = str(e)
+                v = None
+                verdict = ("invalidChoice" if "invalid choice" in msg else
+                           "invalidValue" if re.search(r"invalid \S+ value", msg) else "other:" + msg[:40])
+            rows.append((pname, a.dest, text, verdict, v))
+    return rows
 
 
 def option_rows(parser):
@@ -73,7 +216,12 @@ def option_rows(parser):
                 mutex = gi
         tname, dom = type_info(a.type)
         nargs = "none" if a.nargs is None else str(a.nargs)
+        members = None
+        if tname == "enum":
+            members = [(n, m.value) for n, m in a.type.__members__.items()]
         rows.append({"flags": list(a.option_strings), "dest": a.dest, "action": kind, "typ": tname, "dom": dom,
+                     "members": members, "enum_name": a.type.__name__ if tname == "enum" else None,
+                     "hooks": conversion_hooks(a.type),
                      "default": a.default, "choices": None if a.choices is None else list(a.choices),
                      "nargs": nargs, "required": bool(a.required), "mutex": mutex})
     return rows
@@ -99,6 +247,32 @@ def raw_actions(parser):
     return "[\n" + ",\n".join(rows) + "\n]"
 
 
+def lstr_esc(s):
+    """Lean string literal with tabs / non-ASCII characters escaped."""
+    out = []
+    for ch in s:
+        if ch == "\\":
+            out.append("\\\\")
+        elif ch == '"':
+            out.append('\\"')
+        elif ch == "\t":
+            out.append("\\t")
+        elif ch == "\n":
+            out.append("\\n")
+        elif " " <= ch <= "~":
+            out.append(ch)
+        else:
+            out.append("\\u%04x" % ord(ch))
+    return '"' + "".join(out) + '"'
+
+
+def probe_text(text):
+    """A probe text as RawVal: the canonical decimal of an integer, or a word."""
+    if _CANON.match(text) and text != "-0":
+        return f"(.int ({int(text)}))"
+    return f"(.str {lstr_esc(text)})"
+
+
 def tables():
     from rattr.cli import parser as P
 
@@ -116,6 +290,10 @@ def tables():
         for v in probes:
             verdicts.append((member.name, repr(v), bool(member.is_valid(v))))
     triple = lambda t: f"({lstr(t[0])}, {lstr(t[1])}, {lbool(t[2])})"  # noqa: E731
+    vprobes = value_probes(cli, "cli") + value_probes(toml, "toml")
+    vrow = lambda t: f"({lstr(t[0])}, {lstr(t[1])}, {probe_text(t[2])}, {lstr(t[3])}, {rawval(t[4])})"  # noqa: E731
+    hooks = [(pn, r["dest"], r["hooks"]) for pn, p in (("cli", cli), ("toml", toml)) for r in option_rows(p)]
+    hrow = lambda t: f"({lstr(t[0])}, {lstr(t[1])}, {llist(t[2])})"  # noqa: E731
     return [
         "inductive RawVal where\n  | none | suppress | bool (b : Bool) | int (i : Int) | str (s : String) | other (s : String)\n  deriving DecidableEq, Repr\n",
         "structure RawOpt where\n  flags : List String\n  dest : String\n  action : String\n  typ : String\n"
@@ -133,6 +311,15 @@ def tables():
         f"def negativeNumberLikeFlags : List String := {llist(neg)}\n",
         "/-- `TomlArgumentType.<member>.is_valid(<probe>)` evaluated on the live enum: (member, repr(probe), verdict). -/",
         f"def isValidProbes : List (String × String × Bool) := {llist(verdicts, triple)}\n",
+        "/-- argparse's own value pipeline (`parser._get_values(action, [text])`: the `type=` callable, then the `choices`\n"
+        "membership test) evaluated live for every choice-restricted option of both parsers on each allowed value and on\n"
+        "each near-miss text (other letter case, surrounding whitespace, prefixes, enum member names / reprs, positions,\n"
+        "numeric look-alikes …): (parser, dest, text, verdict ok | invalidValue | invalidChoice, converted value). -/",
+        f"def valueProbes : List (String × String × RawVal × String × RawVal) := {llist(vprobes, vrow)}\n",
+        "/-- hooks through which a `type=` callable could accept a text that is not literally one of its values (an Enum\n"
+        "`_missing_` override, a replaced `__new__` / metaclass `__call__`, members whose name differs from their value,\n"
+        "a callable that is not THE builtin int / str / Path): (parser, dest, hooks), `[]` = plain. -/",
+        f"def conversionHooks : List (String × String × List String) := {llist(hooks, hrow)}\n",
         "/-- prefix_chars of both parsers. -/",
         f"def prefixChars : List String := {llist([cli.prefix_chars, toml.prefix_chars])}\n",
         "/-- option strings of the help action of `make_cli_parser()` (abbreviations and clusters can resolve to them). -/",
